@@ -7,11 +7,11 @@ BASE = json.load(open("/root/.vp/BASELINE.json"))
 
 CHECKS = {
  "C17": dict(engine="schedsim", design="§3",
-   technique="deterministic simulation: real pipeline models driven under a simulated thread pool and virtual clock whose start/finish/yield/timeout decisions and per-branch durations come from a seeded, replayable scheduler (completion orders, worker limits, failing branches, timeouts firing, overlapping forwards of one shared object, guard-chain conditions, nested pipelines, add/remove/replace histories); list-model oracle over the recorded stage trace",
+   technique="deterministic simulation: real pipeline models driven under a simulated thread pool and virtual clock whose start/finish/yield/timeout decisions and per-branch durations come from a seeded, replayable scheduler (completion orders, worker limits, failing branches, timeouts firing, overlapping forwards of one shared object, guard-chain conditions, nested pipelines, add/remove/replace histories, the constructor's list kept and edited by the caller or shared with a second pipeline, bit-identical feedback in every round); list-model oracle over the recorded stage trace",
    text="Seeded search over thread-pool schedules (start/finish interleavings under the worker limit, order of already-finished futures), injected branch failures and add/remove histories, on the real ParallelModel/Sequential/Branching/Feedback/MAC/Wyner-Ziv code with recording stub stages. A clean batch is evidence over the sampled schedules, not a proof; for <=4 branches every yield permutation is in practice reached (measured in the evidence).",
    note="Trusted: the simulated executor's fidelity to ThreadPoolExecutor/as_completed semantics, CPython Future, atomic branch bodies (no pre-emption inside a stage), the list-model oracle."),
  "C16": dict(engine="histsim", design="§5.1",
-   technique="deterministic simulation: seeded delivery layer (fragmenting, coalescing, reordering, interleaved compute/reset) in front of one long-lived metric object (one-shot and rejected calls on the live object, batches in other dtypes, aliased argument pairs, layout variation), checked operation by operation against a two-integer reference model; a call that raises must be atomic or absent",
+   technique="deterministic simulation: seeded delivery layer (fragmenting, coalescing, reordering, interleaved compute/reset, resets with and without a read-out, equal-size epochs) in front of one long-lived metric object (one-shot and rejected calls on the live object, batches in other dtypes, aliased argument pairs, layout variation), checked operation by operation against a two-integer reference model; a call that raises must be atomic or absent",
    text="Seeded search over update/compute/reset histories and batch partitions of a data stream on the real BitErrorRate/BlockErrorRate objects (all aliases and registry names) with a reference counter; one-shot clauses (exact fraction, symmetry, zero-iff-equal, BER<=BLER<=min(1,B*BER), helper agreement, non-divisor rejection) are per-step checks in the same runs. Evidence over sampled histories, not a proof.",
    note="Trusted: the reference counter (two Python integers), float32 tolerance 2e-6 relative; nothing asserted about an object after a rejected call or about forward() touching accumulators."),
  "C12": dict(engine="rngsim", design="§6.2",
@@ -35,11 +35,11 @@ CHECKS = {
    text="Seeded search over (code, hard decoder, messages, flip patterns / received words) with a deterministic walk over messages and patterns for codes with n <= 15. Sampling, not the exhaustive sweep the quantifier text mentions; the evidence reports how many distinct patterns per small code the batch visited.",
    note="Trusted: advertised d; reference codebook enumerated by encoding all 2^k messages with the real encoder (k <= 12); one block per row."),
  "C05": dict(engine="histsim", design="§5.3",
-   technique="deterministic simulation of call histories: a seeded, replayable pre-history of mode toggles, train/eval forwards on differing batch shapes and resets drives one modulator/demodulator pair, optionally another frame is modulated in between, then the post-reset eval-mode round trip through an ideal channel is compared with a reference model of each scheme's start-up loss; sequences walk every symbol and every ordered symbol pair",
+   technique="deterministic simulation of call histories: a seeded, replayable pre-history of mode toggles, train/eval forwards on differing batch shapes and resets drives one modulator/demodulator pair, optionally another frame is modulated in between, a sibling pair with the other labeling is used first in the same process, the frame buffer is one tensor object refilled in place, then the post-reset eval-mode round trip through an ideal channel is compared with a reference model of each scheme's start-up loss; sequences walk every symbol and every ordered symbol pair",
    text="Seeded search over (scheme, order, labeling, construction path, pre-history, layout, bit sequence). For memoryless schemes this degenerates to the zero-fault configuration of the link; for DPSK/OQPSK/pi4-QPSK the history is what makes the state matter. Evidence over sampled histories; all-symbol and all-pair sequences are exhaustive per case for orders <= 16.",
    note="Trusted: the 20-line reference of start-up loss (DPSK drops the reference symbol's bits; OQPSK delays Q by one symbol, first Q slot unspecified); nothing asserted about train-mode outputs or pre-history calls."),
  "C20": dict(engine="histsim", design="§5.2",
-   technique="deterministic simulation of a batching layer: a seeded, replayable history of calls on one shared component instance (singletons, permuted batches, (n,)/(B,n)/(B1,B2,n)/(B,b*n) layouts, stride-0 batches, repeats, interleaved fresh instances, returned tensors overwritten by the caller) checked with the answer-set rule — every successful evaluation of a sample must give the same answer whatever batch, position, layout, neighbours or call history; inputs cloned and compared",
+   technique="deterministic simulation of a batching layer: a seeded, replayable history of calls on one shared component instance (singletons, permuted batches, (n,)/(B,n)/(B1,B2,n)/(B,b*n) layouts, stride-0 batches, repeats, interleaved fresh instances, returned tensors overwritten by the caller or kept and compared after every later call) checked with the answer-set rule — every successful evaluation of a sample must give the same answer whatever batch, position, layout, neighbours or call history; inputs cloned and compared",
    text="Seeded search over (component, sample pool with special members, call history) across every encoder, hard/soft decoder, memoryless modulator/demodulator and per-item constraint. Evidence over the sampled histories; a layout the component rejects contributes nothing and is counted.",
    note="Trusted: the component's own answers are the only reference (no independent model needed); exact comparison for bit outputs, rtol 1e-4 for float outputs; float-path ties are not generated because torch kernels decide them by last-ulp rounding."),
 }
